@@ -2,7 +2,14 @@ from harness.props import base
 from harness import preds, streams, gens
 LEVEL = 'other'
 VFILES = ['Tree.v', 'Refactor.v', 'Properties/C19.v']
-EXPLANATION = 'dump/eval, pickle, refactor splice predicates on implementation trees.'
+TECHNIQUE = ('Coq proof that the model of RefactoringNormalizer is an exact text splice for every node-to-text map (structural induction over trees) + refactor '
+             'correspondence (model vs Grammar.refactor on random disjoint and nested target sets) + dump/eval and pickle round trips on implementation trees')
+EXPLANATION = ('Proved on the Gallina model of RefactoringNormalizer.walk for ALL trees and ALL maps (Refactor.refactor_is_splice, frontier_pieces): the code of the tree '
+               'and the refactored text are the concatenations of the old and new texts of one list of pieces, each piece being an unmapped leaf copied verbatim or a '
+               'maximal mapped subtree replaced as a whole (prefix included; mapped nodes below a mapped node are ignored); corollaries for the empty map and a '
+               'single target. The refactor stream ties the model to Grammar.refactor. C19_partial: the serialisation half (pickle, eval of dump() for every indent '
+               'style) is not modelled - it is about Python object construction - and is decided by round-trip predicates on implementation trees.')
+LEVEL_TEXT = EXPLANATION
 
 
 def pred(v, code, m):
